@@ -3,7 +3,11 @@
 
 package cache
 
-import "runtime"
+import (
+	"runtime"
+
+	"github.com/bool64/cache/zzverifsim"
+)
 
 // VerifStop clears the finalizer and stops the janitor goroutines from inside the bubble.
 func (c *ShardedMapOf[V]) VerifStop() {
@@ -25,16 +29,20 @@ func (f *FailoverOf[V]) VerifStop() {
 
 // VerifKeyLocks returns the number of per-key build locks currently held.
 func (f *FailoverOf[V]) VerifKeyLocks() int {
-	f.lock.Lock()
-	defer f.lock.Unlock()
+	// through the simulator's lock table: if a task holds f.lock across a scheduling point (only a broken
+	// library does), the caller parks and the run ends as "stuck" instead of hanging the worker process
+	zzverifsim.MuLock("verif-hook", &f.lock)
+	defer zzverifsim.MuUnlock("verif-hook", &f.lock)
 
 	return len(f.keyLocks)
 }
 
 // VerifKeyLockNames returns the keys of the per-key build locks currently held.
 func (f *FailoverOf[V]) VerifKeyLockNames() []string {
-	f.lock.Lock()
-	defer f.lock.Unlock()
+	// through the simulator's lock table: if a task holds f.lock across a scheduling point (only a broken
+	// library does), the caller parks and the run ends as "stuck" instead of hanging the worker process
+	zzverifsim.MuLock("verif-hook", &f.lock)
+	defer zzverifsim.MuUnlock("verif-hook", &f.lock)
 
 	out := make([]string, 0, len(f.keyLocks))
 	for k := range f.keyLocks {
